@@ -89,8 +89,33 @@ def cases(rng, tier):
     return out
 
 
+FAULTY_FORMATTERS = {
+    # a formatter that prints part of the program and fails: the returned text must still be the complete module
+    "status1_partial_output": "#!/bin/sh\nhead -c 700\ncat >/dev/null\nexit 1\n",
+    "killed_partial_output": "#!/bin/sh\nhead -c 300\ncat >/dev/null\nkill -9 $$\n",
+    "status1_chatty": "#!/bin/sh\ncat >/dev/null\nprintf 'error: expected item\\n --> <stdin>:1:1\\n  |\\n' >&2\nexit 1\n",
+}
+
+
 def run_cases(plain, cases_, workdir, tag):
     res, summary = run_batch(plain, workdir, tag, real=True, shim=False)
+    # "under every combination of write options": the rustfmt option with a formatter that fails must still return a
+    # module that compiles - three accepted rustfmt cases are generated again under each failing formatter
+    idx = [i for i, (c, r) in enumerate(zip(cases_, res)) if c["opts"].get("rustfmt") and r.get("compile") == "ok"][:3]
+    if idx and "search" not in tag:
+        import os, stat
+        for name, script in FAULTY_FORMATTERS.items():
+            d = os.path.join(workdir, "fmt_" + name)
+            os.makedirs(d, exist_ok=True)
+            p_ = os.path.join(d, "rustfmt")
+            open(p_, "w").write(script)
+            os.chmod(p_, os.stat(p_).st_mode | stat.S_IXUSR | stat.S_IXGRP | stat.S_IXOTH)
+            sub = [dict(plain[i]) for i in idx]
+            fres, _ = run_batch(sub, workdir, tag + "_" + name, real=True, shim=False, env={"PATH": d + ":" + os.environ.get("PATH", "")})
+            for i, fr in zip(idx, fres):
+                if fr.get("result") != "ok" or fr.get("compile") != "ok":
+                    res[i]["fault_failure"] = "with the formatter fault `%s`: result %s, compile %s: %s" % (
+                        name, fr.get("result"), fr.get("compile"), str(fr.get("diagnostics"))[:400])
     return res
 
 
@@ -106,6 +131,9 @@ KF_PREDS = (
 
 
 def _compiles(c, r):
+    if r.get("fault_failure"):
+        c["note"] = r["fault_failure"]
+        return False
     comp = r.get("compile")
     b = (comp == "ok") or (comp == "errors" and permitted(r.get("diagnostics")))
     if r.get("result") != "ok":
